@@ -522,7 +522,7 @@ func servedSamples(tp *TargetPlan, sc *Scrape, tMs int64, kf string) []sm.Sample
 		if sc.Fmt == "proto" {
 			s.Form = 2 // the protobuf parser identifies a series by its sorted labels; text parsers by the rendered text
 			// gauge / untyped alternate; outside runs dedicated to that finding an UNTYPED metric never has the value +0
-			s.PU = len(out)%2 == 1 && (l.V != 0 || kf == KFUntypedZero)
+			s.PU = len(out)%2 == 1 // (an UNTYPED metric with the value +0 used to be steered around: finding repaired)
 		}
 		if l.C == nil {
 			out = append(out, s)
@@ -710,7 +710,7 @@ func Generate(prop, tier string, seed uint64) *Plan {
 		kfDen = 30000
 	}
 	if rc.Intn(kfDen) == 0 {
-		c.KF = []string{KFPartial, KFPartial, KFModeSwitch, KFResync, KFUntypedZero, KFRefKey, KFJobRemoval}[rc.Intn(7)]
+		c.KF = []string{KFPartial, KFPartial, KFModeSwitch, KFResync, KFModeSwitch, KFRefKey, KFJobRemoval}[rc.Intn(7)]
 	}
 	if f := os.Getenv("VERIF_FORCE_KF"); f != "" {
 		c.KF = f // finding-hunting aid; replay files carry the plan, not the environment
